@@ -797,6 +797,9 @@ def unmarshal_array(ct, data, offset, lendian, oobFDs):
         nbytes, value = unmarshallers[tcode](
             tsig, data, offset, lendian, oobFDs)
 
+        if nbytes == 0:
+            raise MarshallingError('Invalid zero-length array element')
+
         offset += nbytes
         values.append(value)
 
